@@ -54,7 +54,7 @@ import (
 
 type NormOpts struct {
 	DropLogs, IncDec, OpAssign, VarDefine, SortBool, IfElse, ErrText bool
-	InlineConsts                                                       bool
+	InlineConsts                                                     bool
 }
 
 // AllNorm switches every rewrite on.
